@@ -599,6 +599,9 @@ package syntax
 // of the inner projection.  RA/RM: what fieldType answers for the element type.
 //@ func syntax.fieldType property C07
 //@   opt deterministic on
+//@   effect ftcalls 0
+//@   effect lastftA 0 := result.0.ArrayDim
+//@   effect lastftM 0 := result.0.MapDim
 //@   let RA = fn(syntax.fieldType, id.Tname, 0, id.MapDim, lookup, field)
 //@   let RM = fn(syntax.fieldType, id.Tname, 0, 0, lookup, field)
 //@   ensures @identity field == "" ==> result.0.Tname == id.Tname && result.0.ArrayDim == id.ArrayDim && result.0.MapDim == id.MapDim && isnil(result.1)
@@ -695,3 +698,12 @@ package syntax
 //@   ensures @allchecked len(bindings.List) - old(len(bindings.List)) == ghost(addb)[0] - old(ghost(addb)[0])
 //@   loop 1 invariant len(bindings.List) - old(len(bindings.List)) == ghost(addb)[0] - old(ghost(addb)[0])
 //@   loop 2 invariant len(bindings.List) - old(len(bindings.List)) == ghost(addb)[0] - old(ghost(addb)[0])
+
+// ---------------------------------------------------------------- C07 the type of a reference to (a field of) a call's output
+// RefExp.resolveType, when it projects a field (one fieldType event; A, M = the array and map
+// dimensions fieldType answered): the reference has exactly those dimensions for a plain call,
+// one more array dimension for an array-mapped call, and for a map-mapped call the field must
+// not be a map itself (M == 0) and its array dimensions become map dimensions plus one.
+//@ func syntax.RefExp.resolveType property C07
+//@   requires exp != nil && global != nil
+//@   ensures @dims isnil(result.2) && ghost(ftcalls)[0] == old(ghost(ftcalls)[0]) + 1 ==> (result.0.ArrayDim == ghost(lastftA)[0] && result.0.MapDim == ghost(lastftM)[0]) || (result.0.ArrayDim == ghost(lastftA)[0] + 1 && result.0.MapDim == ghost(lastftM)[0]) || (ghost(lastftM)[0] == 0 && result.0.ArrayDim == 0 && result.0.MapDim == ghost(lastftA)[0] + 1)
